@@ -1111,3 +1111,135 @@ Proof.
   intros src sps. unfold spans_wfb. induction sps as [|s t IH]; [reflexivity|].
   cbn [forallb]. rewrite span_wfb_tbl_ok, IH. reflexivity.
 Qed.
+
+(* ================================================================== what one byte does to line/column *)
+
+Lemma firstn_snoc_exact : forall (A : Type) (pre : list A) b post,
+  firstn (S (length pre)) (pre ++ b :: post) = pre ++ [b].
+Proof.
+  intros A pre b post. replace (pre ++ b :: post) with ((pre ++ [b]) ++ post)
+    by (rewrite <- app_assoc; reflexivity).
+  replace (S (length pre)) with (length (pre ++ [b])) by (rewrite app_length; cbn; lia).
+  apply firstn_app_exact.
+Qed.
+
+(* the reference line/column moves over a byte exactly as scan_byte says: '\n' (and only '\n')
+   starts a new line at column 0; a continuation byte changes nothing; every other byte — '\r',
+   VT, FF, the lead bytes of U+0085 and U+2028 included — is one more column on the same line *)
+Lemma linecol_step : forall pre b post,
+  linecol (pre ++ b :: post) (S (length pre)) =
+  scan_byte (linecol (pre ++ b :: post) (length pre)) b.
+Proof.
+  intros pre b post. rewrite !linecol_scan, firstn_snoc_exact, firstn_app_exact.
+  rewrite scan_from_app. reflexivity.
+Qed.
+
+Lemma linecol_step_cases : forall pre b post,
+  let lc := linecol (pre ++ b :: post) (length pre) in
+  let lc' := linecol (pre ++ b :: post) (S (length pre)) in
+  (b = NL -> lc' = (S (fst lc), 0)) /\
+  (b <> NL -> is_cont b = true -> lc' = lc) /\
+  (b <> NL -> is_cont b = false -> lc' = (fst lc, S (snd lc))).
+Proof.
+  intros pre b post. cbn zeta. rewrite linecol_step. unfold scan_byte, NL.
+  split; [intros ->; reflexivity|]. split; intros Hne Hc.
+  - apply N.eqb_neq in Hne. rewrite Hne, Hc. reflexivity.
+  - apply N.eqb_neq in Hne. rewrite Hne, Hc. reflexivity.
+Qed.
+
+(* ================================================================== all lexer runs *)
+
+(* the states the tokenizer can be in: it starts at loc_init with the whole source unread and
+   only ever moves by advance! (any number of bytes; off a character boundary it panics).  This
+   over-approximates basic_tokenize: every choice of lengths is allowed. *)
+Inductive lex_reach (src : list N) : loc -> list N -> Prop :=
+| lr_init : lex_reach src loc_init src
+| lr_step : forall st rest n st' skipped rest',
+    lex_reach src st rest -> advance st rest n = Some (st', skipped, rest') ->
+    lex_reach src st' rest'.
+
+Lemma boundary_le : forall s n, is_char_boundary s n = true -> n <= length s.
+Proof.
+  intros s n H. unfold is_char_boundary in H.
+  destruct (Nat.eqb n 0) eqn:E; [apply Nat.eqb_eq in E; lia|].
+  destruct (nth_error s n) eqn:E2.
+  - assert (n < length s) by (apply nth_error_Some; congruence). lia.
+  - apply Nat.eqb_eq in H. lia.
+Qed.
+
+Lemma lex_reach_inv : forall src, valid_utf8 src -> forall st rest, lex_reach src st rest ->
+  exists pre, src = pre ++ rest /\ l_byte st = length pre /\ valid_utf8 rest /\ loc_ok src st.
+Proof.
+  intros src Hv st rest H. induction H as [|st rest n st' skipped rest' Hr IH Ha].
+  - exists []. split; [reflexivity|]. split; [reflexivity|]. split; [exact Hv|apply loc_init_ok].
+  - destruct IH as (pre & Hsrc & Hb & Hvr & Hok).
+    assert (Hbd : is_char_boundary rest n = true).
+    { unfold advance, split_at in Ha. destruct (is_char_boundary rest n); [reflexivity|discriminate]. }
+    pose proof (boundary_le rest n Hbd) as Hn. rewrite Hsrc in Hok.
+    destruct (advance_keeps_invariant pre rest st n Hvr Hok Hb Hn Hbd)
+      as (st2 & sk2 & r2 & Ha2 & Hsplit & Hlen & Hv2 & Hok2 & Hb2 & _).
+    rewrite Ha in Ha2. injection Ha2 as <- <- <-.
+    exists (pre ++ skipped). rewrite Hsrc. split; [rewrite Hsplit at 1; apply app_assoc|].
+    split; [exact Hb2|]. split; [exact Hv2|exact Hok2].
+Qed.
+
+(* every span make_span! can build between two states of a run is well-formed *)
+Lemma lexer_span_wf : forall src a ra b rb, valid_utf8 src ->
+  lex_reach src a ra -> lex_reach src b rb -> l_byte a <= l_byte b ->
+  span_wf src (make_span a b).
+Proof.
+  intros src a ra b rb Hv Ha Hb Hle.
+  destruct (lex_reach_inv src Hv a ra Ha) as (_ & _ & _ & _ & Hoka).
+  destruct (lex_reach_inv src Hv b rb Hb) as (_ & _ & _ & _ & Hokb).
+  apply make_span_wf; assumption.
+Qed.
+
+(* spans the parser derives from token spans: Span::expand towards a later token, eoi() *)
+Inductive parser_span (src : list N) : span -> Prop :=
+| ps_token : forall a ra b rb, lex_reach src a ra -> lex_reach src b rb -> l_byte a <= l_byte b ->
+    parser_span src (make_span a b)
+| ps_expand : forall x y, parser_span src x -> parser_span src y -> rstart x <= rend y ->
+    parser_span src (expand x y)
+| ps_eoi : forall x, parser_span src x -> parser_span src (eoi x).
+
+Lemma parser_span_wf : forall src sp, valid_utf8 src -> parser_span src sp -> span_wf src sp.
+Proof.
+  intros src sp Hv H. induction H as [a ra b rb Ha Hb Hle|x y Hx IHx Hy IHy Hle|x Hx IHx].
+  - eapply lexer_span_wf; eauto.
+  - apply expand_preserves_wf; assumption.
+  - apply eoi_span_wf; assumption.
+Qed.
+
+(* the agreement between the lexer's line numbers and the printer's line table: both count '\n'
+   bytes and nothing else *)
+Lemma parser_span_line_in_table : forall src sp, valid_utf8 src -> parser_span src sp ->
+  1 <= start_line sp <= length (get_line_starts src) /\
+  1 <= end_line sp <= length (get_line_starts src).
+Proof.
+  intros src sp Hv H. pose proof (parser_span_wf src sp Hv H) as Hw.
+  destruct (line_starts_spec src) as (Hlen & _). rewrite Hlen.
+  split; [apply span_wf_line_range; exact Hw|].
+  destruct Hw as (W1 & W2 & _ & _ & _ & W6). unfold linecol in W6. injection W6 as W6 _.
+  unfold num_lines. rewrite W6. split; [lia|].
+  rewrite <- (firstn_skipn (rend sp) src) at 2. rewrite count_nl_app. lia.
+Qed.
+
+(* end to end, with the lexer model as the only premise: an error reported at any such span (in
+   any template text, with notes at such spans of their own sources) displays, and quotes the line *)
+Definition note_from_lexer (n : note) : Prop :=
+  valid_utf8 (n_source n) /\ parser_span (n_source n) (n_span n).
+
+Lemma lexer_report_total : forall e,
+  valid_utf8 (r_source e) -> parser_span (r_source e) (r_span e) ->
+  Forall note_from_lexer (r_notes e) ->
+  exists txt, generate_report e = Some txt /\
+    infix (line_containing (r_source e) (rstart (r_span e))) txt /\
+    Forall (fun n => infix (line_containing (n_source n) (rstart (n_span n))) txt /\
+                     infix (n_label n) txt /\ infix (n_filename n) txt) (r_notes e).
+Proof.
+  intros e Hv Hs Hn.
+  destruct (report_total e Hv (parser_span_wf _ _ Hv Hs)) as (txt & H1 & H2 & _ & _ & H5).
+  - eapply Forall_impl; [|exact Hn]. intros n [Hvn Hsn]. split; [exact Hvn|].
+    apply parser_span_wf; assumption.
+  - exists txt. repeat split; assumption.
+Qed.
